@@ -161,9 +161,11 @@ def _operator_typing():
                         ok, why = _check_children(res, kshape, BUILDER_OF_CTX[cname], None if cname == "none" else cname, log)
                         obs.append(simple_ob(base + ":POST-CHILDREN", NB, "POST",
                                              f"children of {op} are built in order, each by {BUILDER_OF_CTX[cname]} in the operator's own context "
-                                             f"({LEVEL_OF_CTX[cname]} level)", ok, props + ["C05"], detail=why, witness=why))
+                                             f"({LEVEL_OF_CTX[cname]} level)", ok, props + ["C05", "C04", "C06", "C01"], detail=why, witness=why))
                     return obs
-                scenario(sid, NB, ["C03", "C17", "C05", "C02"],
+                # what a child IS depends on the context it is typed in ($not -> NodeNot / NodeNotOperand, a name -> mnemonic / operand /
+                # deref field): the context handed to the children serves every property about those children
+                scenario(sid, NB, ["C03", "C17", "C05", "C02", "C04", "C06", "C01"],
                          inlined=["NaryOperatorHandler.handle/_handle_children", "And/Or/AndAnyOrderHandler._build_node",
                                   "build_handler_chain", "get_builder_for_context"],
                          doc="typing of an operator node; recursive builds answered by the contract")(run)
